@@ -26,8 +26,8 @@ use crate::{
     wire::{RawEntry, RawMessage, RawPart},
 };
 
-const LETTERS: [&str; 13] = [
-    "init", "init-unknown-doc", "init-not-syncing-doc", "sync-fingerprint", "sync-items", "sync-tampered-entry", "sync-short-id",
+const LETTERS: [&str; 14] = [
+    "init", "init-with-entries", "init-unknown-doc", "init-not-syncing-doc", "sync-fingerprint", "sync-items", "sync-tampered-entry", "sync-short-id",
     "abort-notfound", "abort-already-syncing", "abort-internal", "half-frame", "oversized-length", "garbage",
 ];
 
@@ -60,6 +60,8 @@ fn letter_bytes(w: &World, letter: &str, rng: &mut Rng) -> Vec<u8> {
     let mk_items = |es: Vec<RawEntry>| RawMessage { parts: vec![RawPart::Item { x: zero.clone(), y: zero.clone(), values: es.into_iter().map(|e| (e, 0)).collect(), have_local: false }] }.to_bytes();
     match letter {
         "init" => frame(&msg_init(w.uni.ns.id().as_bytes(), &fp)),
+        // an Init whose message already carries (valid, new) entries: a decline must not apply them
+        "init-with-entries" => frame(&msg_init(w.uni.ns.id().as_bytes(), &mk_items(w.entries.iter().skip(3).map(RawEntry::of).collect()))),
         "init-unknown-doc" => frame(&msg_init(w.unknown.as_bytes(), &fp)),
         "init-not-syncing-doc" => frame(&msg_init(w.not_syncing.as_bytes(), &fp)),
         "sync-fingerprint" => frame(&msg_sync(&fp)),
